@@ -227,6 +227,7 @@ package jet
 // ---- helpers that do not touch interpreter state (their bodies are checked to store nothing) ----
 //@ func notNil
 //@   props C10 C07 C17 C12
+//@   nopanic
 //@   ensures [invalid-is-nil] !RvValid(v) ==> result == false
 //@   ensures [nilable-kinds-ask-isnil] RvValid(v) && (RvKind(v) == 18 || RvKind(v) == 19 || RvKind(v) == 20 || RvKind(v) == 21 || RvKind(v) == 22 || RvKind(v) == 23) ==> result == !RvIsNil(v)
 //@   ensures [other-kinds-always-exist] RvValid(v) && !(RvKind(v) == 18 || RvKind(v) == 19 || RvKind(v) == 20 || RvKind(v) == 21 || RvKind(v) == 22 || RvKind(v) == 23) ==> result == true
@@ -597,7 +598,8 @@ package jet
 //@   modifies @Interp
 //@   nopanic
 //@   ensures [out-of-range-arguments-are-unset] argumentIndex < 0 || argumentIndex >= len(a.args.Exprs) + ite(Implicit(a), 1, 0) ==> result == false
-//@   ensures [implicit-piped-argument-is-set] argumentIndex == 0 && Implicit(a) ==> result == true
+//@   ensures [the-implicit-piped-argument-is-set-iff-the-piped-value-exists-and-is-not-nil] {C17,C14} argumentIndex == 0 && Implicit(a) ==> result == (RvValid(old(*a.pipedVal)) && ((RvKind(old(*a.pipedVal)) == 18 || RvKind(old(*a.pipedVal)) == 19 || RvKind(old(*a.pipedVal)) == 20 || RvKind(old(*a.pipedVal)) == 21 || RvKind(old(*a.pipedVal)) == 22 || RvKind(old(*a.pipedVal)) == 23) ==> !RvIsNil(old(*a.pipedVal))))
+//@   ensures [a-placeholder-is-set-iff-the-piped-value-exists-and-is-not-nil] {C17,C14} 0 <= argumentIndex - ite(Implicit(a), 1, 0) && argumentIndex - ite(Implicit(a), 1, 0) < len(a.args.Exprs) && !(argumentIndex == 0 && Implicit(a)) && NTF(a.args.Exprs[argumentIndex - ite(Implicit(a), 1, 0)]) == NodeUnderscore ==> result == (a.pipedVal != nil && (RvValid(old(*a.pipedVal)) && ((RvKind(old(*a.pipedVal)) == 18 || RvKind(old(*a.pipedVal)) == 19 || RvKind(old(*a.pipedVal)) == 20 || RvKind(old(*a.pipedVal)) == 21 || RvKind(old(*a.pipedVal)) == 22 || RvKind(old(*a.pipedVal)) == 23) ==> !RvIsNil(old(*a.pipedVal)))))
 //@   ensures [runtime-valid-after-isset] RtX(a.runtime)
 //@   callsite (*Runtime).isSet 0 requires [isset-examines-the-indexed-argument] {C17} node == a.args.Exprs[caller.argumentIndex - ite(Implicit(a), 1, 0)] && NTF(node) != NodeUnderscore
 //@   callsite (*Runtime).isSet count 1
